@@ -14,7 +14,7 @@ RULE = ("stereo-valid StereoMolGraphs: stars of every coordination class with EV
         "tetrahedral with lone pair 12, square planar 24, trigonal bipyramidal 240, octahedral 1440) in two identifier pools "
         "(1..n; scattered positive ids, permuted insertion order), two-unit graphs (two tetrahedral centres, ring centres), isolated "
         "chains of two / three directly bonded coordination centres (every class pair, the partner at every descriptor position, "
-        "every parity, four atom orders), a coordination centre with a tetrahedral ligand atom, E/Z double bonds with generate_bond_orders=True, organic molecules and delocalised ions imported from RDKit (all stereoisomers): "
+        "every parity, four atom orders), a coordination centre with a tetrahedral ligand atom, E/Z double bonds with generate_bond_orders=True (also in chains of 130 / 262 atoms with the double bond at either end of the atom order), organic molecules and delocalised ions imported from RDKit (all stereoisomers): "
         "RDMol2StereoMolGraph(use_atom_map_number=True)(g._to_rdmol()[0]) has the same atoms, elements and bonds and, for every atom "
         "centred descriptor, a spatially identical descriptor of the same class on the same atom (E/Z descriptors too when bond orders "
         "are regenerated); the export does not change the exported graph.  distinct = graphs round-tripped")
@@ -103,6 +103,7 @@ def items(tier, seed):
     for i in range(len(BONDED)):
         out.append({"part": "bonded-centres", "idx": i, "tier": tier})
     out.append({"part": "ez", "tier": tier})
+    out.append({"part": "ez-large", "tier": tier})
     for i in range(len(R.organics()) + len(R.ions())):
         out.append({"part": "organic", "idx": i, "tier": tier})
     return out
@@ -242,6 +243,56 @@ def run_item(item):
             for cls, cel, par in (("TrigonalBipyramidal", "P", 1), ("TrigonalBipyramidal", "P", -1)):
                 m = U.star(cls, cel, els5, (cls, (1, *perm), par), ids=[1, 2, 3, 4, 5, 6])
                 roundtrip(m, out, item, f"class-sequence/{cls}")
+        return out
+    if item["part"] == "ez-large":
+        # Cl-CH=CH-(CH2)m-H with 130 / 262 / 520 atoms, E and Z, the double bond at the end or at the beginning of the atom order:
+        # RDKit indices beyond 127 / 255 / 256 take part in a bond descriptor
+        for m_ch2 in ((41, 85) if tier == "quick" else (41, 85, 171)):
+            for last in (True, False):
+                chain = []      # (element, neighbours added later)
+                atoms, bonds = [], []
+                nid = [0]
+
+                def new(el):
+                    nid[0] += 1
+                    atoms.append((nid[0], el))
+                    return nid[0]
+
+                def alkene():
+                    c1, c2 = new("C"), new("C")
+                    cl, h1, h2 = new("Cl"), new("H"), new("H")
+                    bonds.extend([(c1, c2), (c1, cl), (c1, h1), (c2, h2)])
+                    return c1, c2, cl, h1, h2
+
+                def alkyl(start):
+                    prev = start
+                    for _ in range(m_ch2):
+                        c = new("C")
+                        bonds.append((prev, c))
+                        for _ in range(2):
+                            bonds.append((c, new("H")))
+                        prev = c
+                    bonds.append((prev, new("H")))
+
+                if last:
+                    first_c = new("C")
+                    for _ in range(2):
+                        bonds.append((first_c, new("H")))
+                    alkyl(first_c)          # chain hanging on first_c; the far end is capped with H
+                    c1, c2, cl, h1, h2 = alkene()
+                    bonds.append((c2, first_c))
+                    sub2 = first_c
+                else:
+                    c1, c2, cl, h1, h2 = alkene()
+                    first_c = new("C")
+                    bonds.append((c2, first_c))
+                    for _ in range(2):
+                        bonds.append((first_c, new("H")))
+                    alkyl(first_c)
+                    sub2 = first_c
+                for t in ((cl, h1, c1, c2, h2, sub2), (cl, h1, c1, c2, sub2, h2)):
+                    m = U.mk(SMG, atoms, bonds, bstereo=[("PlanarBond", t, 0)])
+                    roundtrip(m, out, item, f"ez-large/{'end' if last else 'start'}", bond_orders=True, need_bond_stereo=True)
         return out
     if item["part"] == "ez":
         els = ("H", "F", "Cl", "Br", "C")
